@@ -95,3 +95,11 @@ ENGINES += [
     {"name": "E4 deriv", "path": "/verif/sdpverif/deriv.py", "serves_properties": ["C01", "C02", "C04", "C05", "C06", "C09", "C11", "C17", "C18"],
      "kind_free_text": "fixed point over fragment spec x lexer transducer x LALR automaton; obligations O-accept / O-segment / O-value / O-raise / O-case; actions evaluated abstractly"},
 ]
+CHECKS["C03"] = {
+    "engine": "E5 rules (T-RESET.lexer, T-DOM, T-CALLERS, T-PURE, T-CHANNEL, T-CARRY, T-REBIND, T-ORDER, T-ITER) on E1",
+    "technique": "read-before-write / effect analysis over the resolved call graph: per-statement reset of every lexer attribute, dominance of the reset over the single route to the parser, purity of lexer rules and actions, enumeration of the state carried between lines, append-only in-order accumulation",
+    "text": "Decides the code-shaped core for all scripts: what a statement yields is a function of its own text because every lexer attribute written and read during a parse is reset to a constant on the only route to the parser, lexer rules / actions read nothing else of the parser object and touch no module state, and nothing computed from the whole script is consulted during a parse except through placeholder tokens; results are concatenated by append in one in-order pass; the line machine carries only its enumerated registers and re-binds the pending statement on every path. Not decided: the string-level assembly of lines into statements and PLY's error recovery inside one unsupported statement.",
+    "design_ref": "DESIGN.md section 4 C03, section 3 T-RESET/T-DOM/T-ORDER",
+    "note": "Trusted: PLY's parse() starts from an empty stack and keeps no state but the lexer object. Declined: line-based statement assembly, skip regex behaviour on run-time text, error recovery on arbitrary unsupported text.",
+}
+NOT_APPLICABLE.pop("C03", None)
